@@ -26,6 +26,8 @@ def build_case(r, name, meta, tup, ff, md, sp, cosmo, n=6, override=True, delta=
         ks = [k for k, v in d.items() if isinstance(v, (int, float)) and not isinstance(v, bool) and k not in ("z_hi", "max_z")]
         for k in r.sample(ks, min(len(ks), r.randint(1, 4))):
             params[k] = float(d[k]) * r.uniform(0.9, 1.1) if d[k] != 0 else r.uniform(-0.05, 0.05)
+    if "A" in cls._defaults and name not in ("Tinker08",) and r.random() < 0.25 and "isnone:p.A" in free_vars(t):
+        params["A"] = None          # a meaningful None: the amplitude that normalises the mass fraction
     with LocalsTracer("fitting_functions") as tr:
         obj = cls(nu2=nu2, m=m, z=z, n_eff=neff, mass_definition=mdef, cosmo=cosmo, delta_c=dc, **params)
     loc = {}
@@ -68,6 +70,25 @@ def build_case(r, name, meta, tup, ff, md, sp, cosmo, n=6, override=True, delta=
                              "sigma": sigma.tolist(), "m": m.tolist(), "n_eff": neff.tolist()}, env_for
 
 
+def check_interpolated_coefficients(name, obj, desc, env_for):
+    """between tabulated overdensities the coefficients must be the spline through *this instance's* tabulated parameters"""
+    from scipy.interpolate import InterpolatedUnivariateSpline as Spl
+    dv = np.asarray(type(obj).delta_virs, float)
+    d = desc["delta_halo"]
+    in_table = (d in dv) if name == "Tinker08" else (int(d) in dv)
+    if in_table:
+        return None
+    keys = ("A", "a", "b", "c") if name == "Tinker08" else ("beta", "gamma", "phi", "eta")
+    owner = "Tinker08" if name == "Tinker08" else "Tinker10"
+    for k in keys:
+        want = float(Spl(dv, np.array([obj.params[f"{k}_{int(x)}"] for x in dv]))(d))
+        got = env_for(("var", f"loc:{owner}.{k}_0")).get(f"loc:{owner}.{k}_0")
+        if got is None or not np.isclose(got, want, rtol=1e-12, atol=1e-15):
+            return {"key": f"{name}/interpolated-coefficient", "what": f"{name}: coefficient {k} at overdensity {d} is {got!r}, the spline through this instance's tabulated parameters gives {want!r} (overrides {desc['params']})",
+                    "replay": {"kind": "c06", "case": desc}}
+    return None
+
+
 SPEC_VARS = {}
 
 
@@ -96,6 +117,10 @@ def run(ctx):
                 except Exception as e:
                     continue   # e.g. Tinker10 parameter overrides that make the constructor raise: outside the fit's domain
                 got = np.asarray(obj.fsigma, float)
+                if name in ("Tinker08", "Tinker10", "Behroozi"):
+                    bad = check_interpolated_coefficients(name, obj, desc, env_for)
+                    if bad and not any(v["key"] == bad["key"] for v in out["violations"]):
+                        out["violations"].append(bad)
                 # spec terms use the same variable vocabulary: send the union (unknown names are ignored by the driver)
                 senv = dict(env)
                 for extra in ("isnone:mass_definition", "delta_halo"):
